@@ -366,6 +366,8 @@ def case_session(ctx, drv, d, case):
             if out == "ok" and not ((case.get("identical") or case.get("rolled")) and cfg is not None and len(set(cfg["angles"])) == 1):
                 # the registration of unrelated canvases is ill-conditioned (near-tied peaks): what it measures is not replayed on the model
                 raw = None
+            if out == "ok" and warped_before is not None and not all(_unique_peak(w) for w in warped_before):
+                raw = None      # exact correlation tie: the shift is not determined by the data
             if out == "ok" and op.get("min_shift") is not None and before is not None and after is not None:
                 dl = after["knots"][-1] - before["knots"][-1]
                 if abs(math.hypot(float(dl[0].flat[0]), float(dl[1].flat[0])) - float(op["min_shift"])) < 1e-2 and float(op["min_shift"]) > 0:
@@ -474,7 +476,8 @@ def case_session(ctx, drv, d, case):
                                       dict(case, failing_step=pos, image=i), observed=wsum, required=H * W)
                         return
         if (out == "ok" and kind == "align_translation" and case.get("identical") and cfg is not None and len(set(cfg["angles"])) == 1
-                and before is not None and not case.get("_affine_done") and all(np.all(np.isfinite(k)) for k in before["knots"])):
+                and before is not None and not case.get("_affine_done") and all(np.all(np.isfinite(k)) for k in before["knots"])
+                and warped_before is not None and all(_unique_peak(w) for w in warped_before)):
             moved = max(float(np.max(np.abs(k1 - k0))) for k1, k0 in zip(after["knots"], before["knots"]))
             ctx.stat_max("session:identical_stack_knot_motion", moved)
             if not moved <= TOL32:
@@ -534,6 +537,11 @@ def case_session(ctx, drv, d, case):
     last_nk = cfg["nk"] if cfg else 0
     ctx.mark(("session", n, len(set(shapes)) > 1, bool(case.get("identical")), tuple(sorted({o["op"] + ":" + str(o.get("why")) for o in case["ops"]})), last_nk))
     ctx.sample({k: v for k, v in case.items() if not k.startswith("_")}, limit=6)
+
+
+def _unique_peak(img):
+    from props.c15 import unique_peak
+    return unique_peak(img)
 
 
 def _geom_equal(a, b):
